@@ -9,6 +9,7 @@ import ALV.Lemmas.C04Sparse
 import ALV.Lemmas.C04Pipeline
 import ALV.Lemmas.C04Hist
 import ALV.Lemmas.C04Cx
+import ALV.Lemmas.C04Ext
 import ALV.Common.Audit
 
 set_option linter.unusedSectionVars false
@@ -762,6 +763,219 @@ example : callRaw [((0 : Int), (1 : Rat))] [(0, 0), (1, 1)] Mem.none 0 [1, 2] = 
 example : callRaw [((-1 : Int), (1 : Rat))] [(1, 1)] Mem.none 0 [1, 2] = .error .valueError := by decide +kernel
 example : specCallRaw [((1 : Int), (1 : Rat))] [(0, 2), (1, 1)] Mem.none 0 [1, 2] = .ok [0, 1/2] := by decide +kernel
 example := zero_gain_refuses [((0 : Int), (1 : ℚ))] [(1, 1)] Mem.none 0 [1] (by simp) (by decide +kernel)
+
+/-! ### C04.14 constructor argument kinds, the cast with a divisor, serialised error names -/
+
+/-- **C04.14a** (`coefArg_denotes`): every kind of constructor argument, read as the dictionary the
+pipeline works on (`CoefArg.pairs`: what `Poly.__init__` stores), denotes the polynomial the
+documentation says: nothing ⇒ 0, a number `c` ⇒ the constant `c`, a list ⇒ `c_k` at power `k`, a
+dict / Poly ⇒ its items (last one wins). -/
+theorem coefArg_denotes (a : CoefArg K) (k : Int) : coefLast a.pairs k = a.coef k :=
+  coefArg_coef a k
+
+/-- **C04.14b** (`enumerate_is_positional`): `Poly(list)` stores `enumerate(list)` (`enumFrom 0`):
+looking power `k` up gives the `k`-th item, 0 outside the list. -/
+theorem enumerate_is_positional (l : List K) (k : Int) :
+    coefLast (enumFrom 0 l) k = if k < 0 then 0 else l.getD k.toNat 0 :=
+  coefLast_enumFrom l k
+
+/-- **C04.14c** (`coefArg_call_eq_spec`): the call of a filter built from ANY two argument kinds
+(denominator possibly omitted) is the contract on the dictionaries they denote. -/
+theorem coefArg_call_eq_spec (n : CoefArg K) (d : Option (CoefArg K)) (mem : Option (Mem K))
+    (zero : Option K) (xs : List K) :
+    filterCallD n.pairs (d.map CoefArg.pairs) mem zero xs
+      = specCallD n.pairs (d.map CoefArg.pairs) mem zero xs :=
+  filterCallD_eq_specCallD _ _ _ _ _
+
+/-- **C04.14d** (`castDiv_zero`): `ZFilter(filt, 0)` raises ZeroDivisionError at construction. -/
+theorem castDiv_zero (n : List (Int × K)) : castDiv n 0 = .error .zeroDivision := by
+  simp [castDiv]
+
+/-- **C04.14e** (`castDiv_is_division`): `ZFilter(filt, c)` with `c ≠ 0` is `filt / c`: the same
+powers, every numerator coefficient divided by `c` (the denominator is untouched). -/
+theorem castDiv_is_division (n : List (Int × K)) (c : K) (hc : c ≠ 0) :
+    ∃ n', castDiv n c = .ok n' ∧ n'.map (·.1) = n.map (·.1) ∧ ∀ k, coefLast n' k = coefLast n k / c := by
+  refine ⟨n.map fun kv => (kv.1, kv.2 * (1 / c)), by simp [castDiv, hc], by simp [Function.comp_def], ?_⟩
+  intro k
+  have h := lastD_map_val (fun x : K => x * (1 / c)) n k 0
+  simp only [zero_mul] at h
+  rw [coefLast_eq_lastD, coefLast_eq_lastD, h]
+  simp [div_eq_mul_inv]
+
+/-- **C04.14e'** (`castDiv_response`): … and dividing every numerator coefficient by `c` divides the
+response by `c` (the initial state divided as well — in particular the zero-state response): the
+filter `filt / c` of the documentation. -/
+theorem castDiv_response (b as : List K) (a0 c : K) (mem xs : List K) (hmem : mem.length = as.length) :
+    evalIR (compile (b.map (· / c)) (a0 :: as) 0) (mem.map (· / c)) 0 xs
+      = (evalIR (compile b (a0 :: as) 0) mem 0 xs).map (· / c) := by
+  rw [filter_eq_spec_zero _ _ _ _ _ (by simpa using hmem), filter_eq_spec_zero _ _ _ _ _ hmem]
+  exact fspec_scale b as a0 c xs mem []
+
+/-- **C04.14f** (`err_name_injective`): the two exceptions travel under different names. -/
+theorem err_name_injective (e e' : Err) (h : e.name = e'.name) : e = e' := by
+  cases e <;> cases e' <;> first | rfl | (simp [Err.name] at h)
+
+/-! ### C04.15 the gain is applied by division -/
+
+/-- **C04.15a** (`gain_is_division`): for every `a0` other than 1 and −1 (any spelling: an integer,
+a negative number, a Fraction, a float, a complex number are all just field elements here) the
+generated statement is `m0 = (sum) / a0`: the operator is a DIVISION by the gain itself. -/
+theorem gain_is_division (b as : List K) (a0 zero : K) (h1 : a0 ≠ 1) (hm : a0 ≠ -1)
+    (hnz : ¬ ((∀ c ∈ b, c = 0) ∧ (∀ c ∈ as, c = 0))) :
+    compile b (a0 :: as) zero = IR.loop as.length (b.length - 1) (numAtoms 0 b ++ denAtoms 1 as)
+      (Gain.div a0) (mShifts as.length ++ dShifts (b.length - 1)) := by
+  rw [compile_loop b as a0 zero hnz]
+  simp [h1, hm]
+
+/-- **C04.15b** (`gain_unit_no_division`): gain −1 ⇒ the negated sum; gain 1 ⇒ the bare sum (in a
+field where `1 ≠ −1`: the code tests `gain == -1` first); no division is generated, so integer
+samples stay integers. -/
+theorem gain_unit_no_division (b as : List K) (zero : K)
+    (hnz : ¬ ((∀ c ∈ b, c = 0) ∧ (∀ c ∈ as, c = 0))) :
+    ((1 : K) ≠ -1 →
+      compile b (1 :: as) zero = IR.loop as.length (b.length - 1) (numAtoms 0 b ++ denAtoms 1 as)
+        Gain.one (mShifts as.length ++ dShifts (b.length - 1)))
+    ∧ compile b (-1 :: as) zero = IR.loop as.length (b.length - 1) (numAtoms 0 b ++ denAtoms 1 as)
+      Gain.negOne (mShifts as.length ++ dShifts (b.length - 1)) := by
+  constructor
+  · intro h
+    rw [compile_loop b as 1 zero hnz]
+    simp [h]
+  · rw [compile_loop b as (-1) zero hnz]
+    simp
+
+/-- **C04.15c** (`gain_division_value`): executing that statement divides by `a0`; over a field this
+equals multiplying by the inverse — which is why NO theorem over a field (and no comparison with a
+tolerance) can tell `(sum) / a0` from `(sum) * (1 / a0)`: only the structural tie T3 (operator and
+operand of the generated source) and the exact-regime I/O tie (Fraction samples with an integer
+gain: `Fraction / 3` is a Fraction, `Fraction * (1 / 3)` is a rounded float) pin the operator. -/
+theorem gain_division_value (g s : K) :
+    applyGain (Gain.div g) s = s / g ∧ s / g = s * g⁻¹ :=
+  ⟨rfl, div_eq_mul_inv s g⟩
+
+/-! ### C04.16 which generator is chosen; the free response -/
+
+/-- **C04.16a** (`const_loop_iff`): the trivial generator `for unused in seq: yield zero` is chosen
+IF AND ONLY IF the numerator AND the feedback part are all zero. -/
+theorem const_loop_iff (b as : List K) (a0 zero : K) :
+    compile b (a0 :: as) zero = IR.constLoop zero ↔ (∀ c ∈ b, c = 0) ∧ (∀ c ∈ as, c = 0) :=
+  compile_const_iff b as a0 zero
+
+/-- **C04.16b** (`zero_numerator_free_response`): a zero numerator WITH feedback runs the real loop
+and yields the free response: the homogeneous recursion `a0·y[n] = −Σ a_k·y[n−k]` started on the
+memory — whatever the input values and the zero value are (they only count the outputs / fill an
+omitted memory). -/
+theorem zero_numerator_free_response (b as : List K) (a0 zero : K) (mem xs : List K)
+    (hb : ∀ c ∈ b, c = 0) (ha : ¬ (∀ c ∈ as, c = 0)) (hmem : mem.length = as.length) :
+    evalIR (compile b (a0 :: as) zero) mem zero xs = freeResp as a0 mem xs.length := by
+  rw [filter_eq_spec b as a0 zero mem xs hmem (fun h => ha h.2), fspec_zero_num b as a0 zero hb]
+
+/-- **C04.16c** (`free_response_ignores_input`): … so two inputs of the same length give the same
+output. -/
+theorem free_response_ignores_input (b as : List K) (a0 zero : K) (mem xs xs' : List K)
+    (hb : ∀ c ∈ b, c = 0) (ha : ¬ (∀ c ∈ as, c = 0)) (hmem : mem.length = as.length)
+    (hl : xs.length = xs'.length) :
+    evalIR (compile b (a0 :: as) zero) mem zero xs = evalIR (compile b (a0 :: as) zero) mem zero xs' := by
+  rw [zero_numerator_free_response b as a0 zero mem xs hb ha hmem,
+      zero_numerator_free_response b as a0 zero mem xs' hb ha hmem, hl]
+
+/-- **C04.16d** (`free_response_first_output`): its first output is `−(Σ a_k·mem[k−1]) / a0`: not
+the zero value, and non-zero as soon as that sum is. -/
+theorem free_response_first_output (b as : List K) (a0 zero : K) (mem : List K) (x : K) (xs : List K)
+    (hb : ∀ c ∈ b, c = 0) (ha : ¬ (∀ c ∈ as, c = 0)) (hmem : mem.length = as.length) :
+    (evalIR (compile b (a0 :: as) zero) mem zero (x :: xs)).head? = some ((0 - dot as mem) / a0) := by
+  rw [zero_numerator_free_response b as a0 zero mem _ hb ha hmem]
+  simp [freeResp]
+
+/-! ### C04.17 how a memory is read -/
+
+/-- **C04.17a** (`memory_iterator_reads`): an ITERATOR memory with items `l` left: the first `lm`
+are kept (in order), `min (lm+1) |l|` items are pulled — `takewhile` pulls the first item that fails
+its test and drops it — and the iterator is left at `l.drop (lm+1)`. -/
+theorem memory_iterator_reads (lm : Nat) (l : List K) :
+    readMem lm (Src.fin l) = (l.take lm, min (lm + 1) l.length, Src.fin (l.drop (lm + 1))) :=
+  readMem_fin lm l
+
+/-- **C04.17b** (`memory_endless_reads`): an endless iterator is advanced by exactly `lm + 1`. -/
+theorem memory_endless_reads (lm : Nat) (g : Nat → K) (p : Nat) :
+    readMem lm (Src.inf g p)
+      = ((List.range lm).map (fun i => g (p + i)), lm + 1, Src.inf g (p + lm + 1)) :=
+  readMem_inf lm g p
+
+/-- **C04.17c** (`memory_rest`): what the caller can still get out of its iterator afterwards. -/
+theorem memory_rest (lm n : Nat) (l : List K) :
+    Src.peek n (readMem lm (Src.fin l)).2.2 = (l.drop (lm + 1)).take n := by
+  rw [readMem_fin, peek_fin]
+
+/-- **C04.17d** (`memory_read_is_memoryOf`): the list built from what was read (LEFT padded when
+short) is the memory of C04.5 — for a finite and for an endless iterator. -/
+theorem memory_read_is_memoryOf (zero : K) (lm : Nat) (l : List K) (g : Nat → K) :
+    memoryFromSrc zero lm (Src.fin l) = memoryOf zero lm (Mem.iter l)
+    ∧ memoryFromSrc zero lm (Src.inf g 0) = memoryOf zero lm (Mem.gen g) :=
+  ⟨memoryFromSrc_fin zero lm l, memoryFromSrc_inf zero lm g⟩
+
+/-- **C04.17e** (`callable_asked_once`): a callable memory is asked exactly once, for the needed
+size; nothing else is ever asked. -/
+theorem callable_asked_once (lm : Nat) (m : Mem K) :
+    memAsked lm m = (match m with | .callable _ => [lm] | _ => []) := by
+  cases m <;> rfl
+
+/-- which memories are iterators for `readMem` -/
+theorem mem_src_cases (l : List K) (g : Nat → K) (f : Nat → List K) :
+    (Mem.iter l).src = some (Src.fin l) ∧ (Mem.gen g).src = some (Src.inf g 0)
+    ∧ (Mem.none : Mem K).src = none ∧ (Mem.callable f).src = none := ⟨rfl, rfl, rfl, rfl⟩
+
+/-! ### C04.18 complex histories and cascades: the instances the driver executes -/
+
+/-- **C04.18a** (`gauss_hist_model_eq_spec`): entry "ghist" — every step of every history over ℚ(i),
+run with the model's own Gaussian-rational operations, as coded = as the property says. -/
+theorem gauss_hist_model_eq_spec (ops : List (HOp GRat)) : gaussHistModel ops = gaussHistSpec ops :=
+  histModel_eq_histSpec filterCall_eq_specCall ops
+
+/-- **C04.18b** (`gauss_cascade_model_eq_spec`): entry "gcascade" — one filter object with complex
+coefficients applied to its own lazy output, stage by stage. -/
+theorem gauss_cascade_model_eq_spec (n d : List (Int × GRat)) (zero : GRat) (mems : List (Mem GRat))
+    (xs : List GRat) :
+    cascadeWith (fun m ys => gaussFilterCall n d m zero ys) mems xs
+      = cascadeWith (fun m ys => gaussSpecCall n d m zero ys) mems xs :=
+  cascade_model_eq_spec n d zero mems xs
+
+/-! non-vacuity of C04.14 – C04.18 -/
+example : (CoefArg.list [(3 : Rat), 0, 5]).coef 2 = 5 ∧ (CoefArg.number (7 : Rat)).coef 0 = 7
+    ∧ (CoefArg.none : CoefArg Rat).coef 0 = 0 ∧ (CoefArg.dict [((2 : Int), (1 : Rat)), (2, 9)]).coef 2 = 9 := by
+  decide +kernel
+example : castDiv [((0 : Int), (6 : Rat)), (1, 3)] 3 = .ok [(0, 2), (1, 1)] := by decide +kernel
+example := castDiv_is_division [((0 : Int), (6 : ℚ)), (1, 3)] 3 (by norm_num)
+example : evalIR (compile [2, 1] [1, -1] (0 : Rat)) [1] 0 [3, 6] = (evalIR (compile [6, 3] [1, -1] (0 : Rat)) [3] 0 [3, 6]).map (· / 3) := by
+  decide +kernel
+/-- every spelling of a gain other than ±1: 3, −3, 1/2, i — the generated gain is `Gain.div` of it -/
+example := gain_is_division [(1 : ℚ)] [2] 3 0 (by norm_num) (by norm_num) (by simp)
+example := gain_is_division [(1 : ℚ)] [2] (-3) 0 (by norm_num) (by norm_num) (by simp)
+example := gain_is_division [(1 : ℚ)] [2] (1 / 2) 0 (by norm_num) (by norm_num) (by simp)
+example := (gain_unit_no_division [(1 : ℚ)] [2] 0 (by simp)).1 (by norm_num)
+example := gain_is_division [(1 : GRat)] [gi] gi 0 (by decide +kernel) (by decide +kernel) (by decide +kernel)
+/-- exact samples come out exact: `Fraction(1, 3) / 3` -/
+example : evalIR (compile [1] [3, 1] (0 : Rat)) [2] 0 [1/3, 5] = [-5/9, 50/27] := by decide +kernel
+/-- zero numerator, feedback `y[n] = 2·y[n−1]`, no memory given, zero value 7: free response 14, 28, 56
+— not `7, 7, 7` -/
+example : evalIR (compile [0, 0] [1, -2] (7 : Rat)) (memoryOf 7 1 Mem.none) 7 [5, 5, 5] = [14, 28, 56] := by
+  decide +kernel
+example : freeResp [(-2 : Rat)] 1 [7] 3 = [14, 28, 56] := by decide +kernel
+example := zero_numerator_free_response [(0 : ℚ), 0] [-2] 1 7 [7] [5, 5, 5] (by simp) (by simp) rfl
+example : filterCall [((0 : Int), (0 : Rat))] [(0, 1), (1, -2)] (Mem.iter [3]) 0 [1, 1] = .ok [6, 12] := by
+  decide +kernel
+/-- iterator memories: order 2, five items ⇒ 3 pulled, `[4, 5]` left; two items ⇒ both pulled, nothing left -/
+example : readMem 2 (Src.fin [(1 : Rat), 2, 3, 4, 5]) = ([1, 2], 3, Src.fin [4, 5]) := by
+  rw [memory_iterator_reads]; rfl
+example : (readMem 2 (Src.fin [(1 : Rat), 2, 3, 4, 5])).2.1 = 3 ∧ (readMem 2 (Src.fin [(1 : Rat), 2])).2.1 = 2
+    ∧ (readMem 0 (Src.fin [(1 : Rat), 2])).2.1 = 1 := by decide +kernel
+example : Src.peek 2 (readMem 1 (Src.inf (fun i => (i : Rat)) 0)).2.2 = [2, 3] := by decide +kernel
+/-- a complex history: the one-pole oscillator called twice, consumed interleaved -/
+example : gaussHistModel
+    [.setCoefs 0 [(0, 1)], .setCoefs 1 [(0, 1), (1, -gi)], .build 0 0 1, .setNums 0 [1, 1, 1], .setNums 1 [gi],
+     .call 0 0 0 (some 1) 0, .setNums 1 [0], .call 1 0 0 none 0, .take 0 2, .take 1 3]
+    = [.stored, .stored, .ok, .stored, .stored, .ok, .stored, .ok, .outs [0, 1] false,
+       .outs [1, ⟨1, 1⟩, gi] false] := by decide +kernel
 end ALV.Props.C04
 
 #write_audit "C04"
